@@ -89,7 +89,7 @@ func derIntBytes(v *big.Int) []byte {
 	return b
 }
 
-func derInt(v *big.Int) []byte  { return tlv(tagInteger, derIntBytes(v)) }
+func derInt(v *big.Int) []byte   { return tlv(tagInteger, derIntBytes(v)) }
 func derSmallInt(v int64) []byte { return derInt(big.NewInt(v)) }
 
 func base128(v int) []byte {
